@@ -38,6 +38,63 @@ CLAIMED = {
   },
 }
 
+def _c(pid, technique, text, note):
+  CLAIMED[pid] = {"technique": technique, "text": text, "note": note}
+
+_c("C14", "model-based testing: generated operation histories vs model deque + reference chart model",
+   "Exploration: generated post/next_rtc/complete_circuit histories (handlers post from their clauses, same Event "
+   "object posted twice, long circuits of several hundred events) compared step by step with a model deque.",
+   "Trusts the model deque, the reference chart model and the per-step observation (wrapped dispatch).")
+_c("C15", "model-based testing: generated defer/recall histories vs model deque + defer list",
+   "Exploration: generated histories with defer/recall from outside and inside handlers; recall results, identity "
+   "and later dispatch order compared with the model.",
+   "Trusts the model; histories stay below queue capacity.")
+_c("C16", "model-based testing at real capacity: prefix re-execution + drain for queued charts; op histories on LockingDeque with a non-blocking token queue",
+   "Exploration: overflow behaviour at the shipped capacity (pre-fill 497..500) for HsmWithQueues (black-box, by "
+   "draining a re-executed prefix) and LockingDeque (popleft/len/qsize), bound, placement, displacement of exactly "
+   "one old item, token count, clear, would-block detection.",
+   "Which old item is displaced is left open. Blocking is detected by substituting the token queue class.")
+_c("C18", "differential testing across 99 configurations of decorator x host x live flags x drive x polling",
+   "Exploration: each generated chart and event list is executed under every configuration and the handler action "
+   "logs and resting states must be identical.",
+   "Active-object hosts are not part of this differential (scheduler-based checks cover them).")
+_c("C19", "property-based testing: spy output vs the handlers' own invocation stream",
+   "Exploration: spy_rtc() and spy() of generated histories compared line by line with an oracle built from what "
+   "the handlers themselves saw (calls, statuses, action positions) and the model's queue counts; ring wrap covered.",
+   "Trusts the handler-side stream; markers of posts made outside a step are not required.")
+_c("C20", "property-based testing: parsed trace() vs reference model transitions",
+   "Exploration: one record for start and one per transition step, none otherwise, order and 500-record ring, "
+   "on generated histories with posts/defers/recalls inside handlers.",
+   "Trusts the reference model and the documented trace line layout.")
+_c("C21", "property-based testing with a generated (coarse/constant) clock substituted for datetime.now",
+   "Exploration: live spy/trace callback streams of generated histories equal the concatenated step logs and the "
+   "new trace records, exactly once and in order, under fine, coarse and constant clocks.",
+   "Queued-chart part only until the scheduler-based active-object part is added; clock substitution by module attribute.")
+_c("C22", "metamorphic twins + reference model for is_in/child_state",
+   "Exploration: query answers compared with the model's active path; a twin without queries must behave identically.",
+   "Exception type of a failing child_state is unconstrained; state_name between a query and the next step is not asserted.")
+_c("C23", "property-based testing: state_name/state_fn/current_state vs reference model after every step",
+   "Exploration on all hosts and both decoration styles.",
+   "Steps already desynchronised by C01/C02 faults are not examined.")
+_c("C24", "fault injection: generated well-formed chart + one malformed init target / status-less handler, bounded execution",
+   "Exploration: every fault shape reached by start_at and by dispatch must raise HsmTopologyException within a call bound.",
+   "Hang detection is a call-count bound (top() counter, handler counter).")
+_c("C26", "round-trip property over st.text() names x recursive JSON payloads",
+   "Exploration: thousands of generated (name, payload) pairs incl. foreign-made JSON; name, payload (type-exact), "
+   "number binding and non-interference with other bindings.",
+   "NaN/inf and tuples excluded by the statement.")
+_c("C28", "grammar-based generation: every statement of a finite statement grammar is enumerated, plus Hypothesis sampling",
+   "Exploration (complete over the stated grammar): after each statement the attribute lock depth is 0 and another "
+   "thread can take it.",
+   "Lock ownership observed through a counting wrapper substituted for RLock; one-line statements only.")
+_c("C29", "model-based testing: generated create/assign/augment/read histories vs a per-instance dict",
+   "Exploration: instances of one or two freshly defined classes, reads must return the model value of that instance.",
+   "Single-threaded.")
+_c("C32", "metamorphic + reference-implementation oracle over generated traces",
+   "Exploration: benign perturbations (timestamps, blank lines, surrounding whitespace) keep stripped() equal; "
+   "field edits, drops, swaps, duplicates make it unequal; independent reference of the stripped lines.",
+   "Names contain no line-boundary characters; both texts keep the multi-line shape of trace().")
+
 NOT_APPLICABLE = {}
 for _e in ENGINES:
   _e["serves_properties"] = sorted(CLAIMED)
